@@ -16,6 +16,8 @@ constraint and a *safety obligation* (definedness):
 """
 from __future__ import annotations
 
+import os
+
 import contextlib
 from fractions import Fraction
 from typing import Any, Callable, List, Optional
@@ -545,6 +547,24 @@ def _proxy_limitation(e: BaseException) -> bool:
                                   "loop of ufunc does not support", "has no callable", "must be real number, not"))
 
 
+_VERIF_ROOT = os.path.dirname(os.path.dirname(os.path.abspath(__file__)))
+
+
+def _raised_in_harness(e: BaseException) -> bool:
+    """True when the innermost Python frame of the traceback is a file of /verif (harness, stub, proxy) and the exception is one of the
+    kinds a missing attribute / unsupported model operation produces.  Exceptions raised by lines of the repository, of numpy or of the
+    standard library (whatever the harness frames above them) are behaviours of the code under check."""
+    if not isinstance(e, (AttributeError, KeyError, TypeError, NameError, NotImplementedError, IndexError)):
+        return False
+    tb, last = e.__traceback__, None
+    while tb is not None:
+        last, tb = tb, tb.tb_next
+    if last is None:
+        return False
+    fn = os.path.abspath(last.tb_frame.f_code.co_filename)
+    return fn.startswith(_VERIF_ROOT + os.sep)
+
+
 def explore(run: Callable[[Ctx], Any], assumptions=(), max_paths=512,
             feas_timeout_ms=2000, catch=(Exception,), max_secs: Optional[float] = None) -> List[Path]:
     """Enumerate every feasible path of ``run`` (a closure that builds fresh
@@ -568,6 +588,10 @@ def explore(run: Callable[[Ctx], Any], assumptions=(), max_paths=512,
         except SymError:
             raise
         except catch as e:  # the real code raised on this path
+            if _raised_in_harness(e):
+                # raised by a line of the verification harness itself (a private attribute the harness reads no longer exists, a model object
+                # lacks an operation): not a behaviour of the code under check -> undecided, never an alarm
+                raise SymError(f"exception raised inside the harness, not by the code under check: {type(e).__name__}: {e}")
             if _proxy_limitation(e):
                 # not a behaviour of the code under check: the symbolic proxies do not support an operation
                 # (e.g. a numpy ufunc without an object loop) -> undecided, never an alarm
